@@ -332,15 +332,19 @@ func (c *FCtx) specSort(name string) (Sort, types.Type) {
 
 func (se *SpecEnv) evalQuant(x *SExpr) TV {
 	c := se.C
-	srt, gty := c.specSort(x.VType)
 	nb := &Bindings{vals: map[string]TV{}, parent: se.B}
 	var vars []*Term
 	var guards []*Term
-	for _, n := range x.Vars {
+	for vi, n := range x.Vars {
+		vt := x.VType
+		if vi < len(x.VTypes) {
+			vt = x.VTypes[vi]
+		}
+		srt, gty := c.specSort(vt)
 		v := Var(c.freshName(n), srt)
 		vars = append(vars, v)
 		nb.vals[n] = TV{v, gty}
-		if gty != nil && x.VType != "int" {
+		if gty != nil && vt != "int" {
 			if f := c.rangeFact(gty, v); !f.IsTrue() {
 				guards = append(guards, f)
 			}
@@ -423,7 +427,18 @@ func (se *SpecEnv) evalBin(x *SExpr) TV {
 	if t == nil {
 		t = types.Typ[types.Int]
 	}
-	return TV{c.arith(op, at, bt2, t, true), t}
+	res := c.arith(op, at, bt2, t, true)
+	if len(c.sideFacts) > 0 {
+		if se.inQ > 0 {
+			se.facts = append(se.facts, c.sideFacts...)
+		} else {
+			for _, f := range c.sideFacts {
+				se.Cur.assume(f)
+			}
+		}
+		c.sideFacts = nil
+	}
+	return TV{res, t}
 }
 
 func isUntyped(t types.Type) bool {
@@ -556,17 +571,21 @@ func (se *SpecEnv) selectField(a TV, name string, x *SExpr) TV {
 		if k == len(path)-1 {
 			cr := curRef
 			ct := curT
+			if _, isStruct := f.Type().Underlying().(*types.Struct); isStruct {
+				// a struct held by value: the spec sees a reference to the sub-object
+				return TV{c.embRef(ct, f, cr), types.NewPointer(f.Type())}
+			}
 			v := se.load(func(st *State) Value { return c.loadField(st, cr, ct, f) }, se.Cur)
 			return TV{v, f.Type()}
 		}
 		cr := curRef
 		ct := curT
-		v := se.load(func(st *State) Value { return c.loadField(st, cr, ct, f) }, se.Cur)
 		if p, ok := f.Type().Underlying().(*types.Pointer); ok {
+			v := se.load(func(st *State) Value { return c.loadField(st, cr, ct, f) }, se.Cur)
 			curRef = v.(*Term)
 			curT = p.Elem()
 		} else {
-			curRef = App("emb$"+structKey(f.Type()), SInt, curRef)
+			curRef = c.embRef(ct, f, cr)
 			curT = f.Type()
 		}
 	}
@@ -808,7 +827,39 @@ func (se *SpecEnv) applySpecFunc(sf *SpecFunc, args []*SExpr, x *SExpr) TV {
 	}
 	rs, rt := c.specSort(sf.Result)
 	c.needAxioms("spec:" + sf.Name)
-	return TV{App(sf.Name, rs, targs...), rt}
+	app := App(sf.Name, rs, targs...)
+	if sf.Rec && sf.Body != nil && se.inQ == 0 {
+		key := app.String()
+		if c.recSeen == nil {
+			c.recSeen = map[string]bool{}
+		}
+		if !c.recSeen[key] && len(c.recApps) < 200 {
+			c.recSeen[key] = true
+			var tvs []TV
+			for i, p := range sf.Params {
+				_, pt := c.specSort(p.Type)
+				tvs = append(tvs, TV{targs[i], pt})
+			}
+			c.recApps = append(c.recApps, recApp{sf: sf, args: tvs, app: app})
+			// one unfolding of the definition at this application (a definitional fact)
+			n := *se
+			n.B = &Bindings{vals: map[string]TV{}}
+			n.Env = nil
+			n.Pkg = c.W.ByName[sf.PkgName]
+			for i, p := range sf.Params {
+				n.B.vals[p.Name] = tvs[i]
+			}
+			c.recDepth++
+			if c.recDepth <= 2 {
+				body := n.eval(sf.Body)
+				if bt, ok := body.V.(*Term); ok {
+					se.Cur.assume(Eq(app, coerce(bt, app.Sort)))
+				}
+			}
+			c.recDepth--
+		}
+	}
+	return TV{app, rt}
 }
 
 // specArg converts an argument to the declared spec parameter type.
@@ -892,6 +943,15 @@ func (se *SpecEnv) havocModifies(text string, st *State) {
 		}
 		if item == "heap" {
 			c.havocAll(st, "modifies heap")
+			continue
+		}
+		if item == "allbytes" {
+			k := c.memKey(types.Typ[types.Uint8])
+			var bs Sort = SInt
+			if c.Mode == ModeBV {
+				bs = SBV(8)
+			}
+			st.heap[k] = c.freshVar(k, SArr(SInt, SArr(c.idxSort(), bs)))
 			continue
 		}
 		if strings.HasSuffix(item, ".*") {
